@@ -1648,7 +1648,7 @@ fn siqsroots(rng: &mut Rng, iters: u64) {
     fn next_prime(mut n: u64) -> u64 { n |= 1; while !is_prime(n) { n += 2; } n }
     let mut inputs: Vec<Uint> = vec![];
     // small semiprimes whose multiplier is a prime of the A-factor window, and plain ones
-    for n0 in [1099543084957u64, 68733098699, 4289413411, 1000036000099, 281493733684369] { inputs.push(Uint::from(n0)); }
+    for n0 in [1099543084957u64, 68733098699, 4289413411, 1000036000099, 281493733684369, 279493, 2917301, 35189293, 2660388877] { inputs.push(Uint::from(n0)); }
     let rounds = if iters < 1000 { 6 } else if iters < 50000 { 40 } else { 300 };
     for _ in 0..rounds {
         let bits = 16 + (rng.next() % 46) as u32; // each factor: 16..61 bits
@@ -1660,7 +1660,7 @@ fn siqsroots(rng: &mut Rng, iters: u64) {
     for (i, n) in inputs.iter().enumerate() {
         for use_k in [true, false] {
             let n = *n;
-            let r = catch_unwind(AssertUnwindSafe(|| yamaquasi::siqs::verif_probe::family_check(n, use_k, if i < 5 { 64 } else { 24 }, 3000)));
+            let r = catch_unwind(AssertUnwindSafe(|| yamaquasi::siqs::verif_probe::family_check(n, use_k, if i < 9 { 64 } else { 24 }, 3000)));
             match r {
                 Err(_) => fail("siqsroots", format!("SIQS polynomial family of n = {n} (multiplier {use_k}): panic")),
                 Ok(Err(e)) => fail("siqsroots", e),
